@@ -482,6 +482,15 @@ MsgSend(s, a) ==
             ELSE LET cr == CreateSend(s, a.chain, a.from, a.dest, a.denom, a.amt - comm, a.fee, comm,
                                       SendHash(s, a.chain), "hub", a.from)
                  IN IF cr.ok THEN [out |-> "ok", s |-> cr.s, id |-> cr.id] ELSE Err(s)
+\* (a send inside a multi-message transaction carries the name of that transaction's hash in a.x)
+MsgSendX(s, a) ==
+    LET tok == TokByDenom(Cfg(s), a.chain, a.denom) IN
+    IF a.amt <= 0 \/ a.fee < 0 \/ a.dest \in {"zero", "bad"} THEN Err(s)
+    ELSE IF ~IsChain(Cfg(s), a.chain) \/ ~Found(tok) THEN Err(s)
+    ELSE LET comm == Commission(s, tok, {a.from, a.dest}, a.amt + a.fee)
+         IN IF comm > a.amt THEN Err(s)
+            ELSE LET cr == CreateSend(s, a.chain, a.from, a.dest, a.denom, a.amt - comm, a.fee, comm, a.x, "hub", a.from)
+                 IN IF cr.ok THEN [out |-> "ok", s |-> cr.s, id |-> cr.id] ELSE Err(s)
 
 MsgCancel(s, a) ==
     IF a.id = 0 \/ ~IsChain(Cfg(s), a.chain) THEN Err(s)
@@ -544,10 +553,17 @@ MsgSetKeys(s, a) ==
 ColdAddr(chain) == "cold-" \o chain
 ColdHash == "e3b0c44298fc1c149afbf4c8996fb92427ae41e4649b934ca495991b7852b855"      \* sha256 of the empty tx bytes
 IsColdTransfer(chain, tr) == tr.s = "tmp" /\ tr.d = ColdAddr(chain)
+\* a.coins = <<<<denom, amount>>, ..>>: one transfer per coin, each with vouchers minted for it alone
 MsgGovCold(s, a) ==
     IF a.chain \notin {"ethereum", "minter", "bsc"} \/ ~IsChain(Cfg(s), a.chain) THEN Err(s)
-    ELSE LET cr == CreateSend(Credit(s, "tmp", a.denom, a.amt), a.chain, "tmp", ColdAddr(a.chain), a.denom, a.amt, 0, 0, ColdHash, "hub", "tmp")
-         IN IF cr.ok THEN [out |-> "ok", s |-> cr.s, id |-> cr.id] ELSE Err(s)
+    ELSE LET F[k \in 0..Len(a.coins)] ==
+                 IF k = 0 THEN [ok |-> TRUE, s |-> s, id |-> 0]
+                 ELSE IF ~F[k - 1].ok THEN F[k - 1]
+                 ELSE LET d == a.coins[k][1]
+                          amt == a.coins[k][2]
+                      IN CreateSend(Credit(F[k - 1].s, "tmp", d, amt), a.chain, "tmp", ColdAddr(a.chain), d, amt, 0, 0, ColdHash, "hub", "tmp")
+             r == F[Len(a.coins)]
+         IN IF r.ok THEN [out |-> "ok", s |-> r.s, id |-> r.id] ELSE Err(s)
 
 \* ---------------------------------------------------------------- the step function
 \* Step(s, a) = [out, s, id].  For "End" the caller has already put the staking module's end-of-block
@@ -555,7 +571,7 @@ MsgGovCold(s, a) ==
 Step1(s, a) ==
     CASE a.k = "Begin"    -> [out |-> "ok", s |-> BeginBlock(s, a.dt), id |-> 0]
       [] a.k = "End"      -> LET r == EndBlockHub(s) IN [out |-> IF r.panic THEN "panic" ELSE "ok", s |-> r.s, id |-> 0]
-      [] a.k = "Send"     -> MsgSend(s, a)
+      [] a.k = "Send"     -> IF "x" \in DOMAIN a THEN MsgSendX(s, a) ELSE MsgSend(s, a)
       [] a.k = "BulkSend" -> LET F[k \in 0..a.n] == IF k = 0 THEN Ok(s) ELSE IF F[k - 1].out # "ok" THEN F[k - 1] ELSE MsgSend(F[k - 1].s, a)
                              IN F[a.n]
       [] a.k = "Cancel"   -> MsgCancel(s, a)
